@@ -15,7 +15,7 @@ RULE = ('two families. (call) pretty_call / pretty_call_alt invoked with: callab
         'given string); positional count/order and keyword names in the given order; each argument sub-tree == AST of the '
         'argument printed alone; evaluation with a recording callable yields the given (args, kwargs) type-strictly. '
         '(class) generated dataclass / attrs definitions: 0-5 fields, names from the same pool, each with no default / '
-        'default value / default factory (attrs: also takes_self; factories returning nested dataclass/attrs instances), repr '
+        'default value / default factory (attrs: also takes_self, computed from an earlier field of the instance, with a sibling instance printed first; factories returning nested dataclass/attrs instances), keyword-only flag per field / class-wide (a keyword-only field without default may follow defaulted ones), repr '
         'flag, frozen / slots variants, ClassVar / InitVar pseudo-fields (ClassVar possibly re-assigned after the class was created), '
         ' instance values (incl. nested dataclass/attrs instances, alone or inside lists and '
         'dicts) at or away from the default; sort_dict_keys on and off. Oracle: keyword names == those computed from the definition recipe (declaration order, '
@@ -130,6 +130,20 @@ def fixed_cases():
             yield {'kind': 'class', 'lib': 'dc', 'frozen': False, 'slots': slots, 'width': 79, 'indent': 4, 'pseudo': pseudo,
                    'fields': [{'name': 'a', 'default': ['none'], 'repr': True, 'value': ['int', 1]},
                               {'name': 'b', 'default': ['val', ['int', 3]], 'repr': True, 'value': 'default'}]}
+    for lib in ('dc', 'attrs'):
+        for kwc in (False, True):
+            for v1 in ('default', ['int', 5]):
+                for v3 in ('default', ['int', 9]):
+                    # a keyword-only field without default declared after a defaulted field
+                    yield {'kind': 'class', 'lib': lib, 'frozen': False, 'slots': False, 'width': 79, 'indent': 4, 'kw_only': kwc,
+                           'fields': [{'name': 'retries', 'default': ['val', ['int', 3]], 'repr': True, 'value': v1, 'kw': False},
+                                      {'name': 'name', 'default': ['none'], 'repr': True, 'value': ['str', 'x'], 'kw': True},
+                                      {'name': 'x', 'default': ['fac', 'seven'], 'repr': True, 'value': v3, 'kw': True}]}
+    for v1 in (['int', 1], ['int', 10], ['list', [['int', 1]]]):
+        for v2 in ('default', ['int', 2], ['tuple', [['int', 10], ['int', 1]]]):
+            yield {'kind': 'class', 'lib': 'attrs', 'frozen': False, 'slots': False, 'width': 79, 'indent': 4,
+                   'fields': [{'name': 'start', 'default': ['none'], 'repr': True, 'value': v1},
+                              {'name': 'stop', 'default': ['facself'], 'repr': True, 'value': v2}]}
     yield {'kind': 'class', 'lib': 'dc', 'frozen': False, 'slots': False, 'width': 79, 'indent': 4,      # D15
            'fields': [{'name': 'fn', 'default': ['none'], 'repr': True, 'value': ['int', 1]},
                       {'name': 'ctx', 'default': ['none'], 'repr': True, 'value': ['int', 2]},
@@ -166,13 +180,13 @@ def strategy(tier):
                         st.sampled_from(sorted(FACTORIES)).map(lambda k: ['fac', k]), st.just(['facself']))
     field = st.fixed_dictionaries({
         'name': st.sampled_from(FIELD_POOL), 'default': default, 'repr': st.sampled_from([True, True, True, False]),
-        'value': st.one_of(st.just('default'), st.just('default'), small)})
+        'value': st.one_of(st.just('default'), st.just('default'), small), 'kw': st.sampled_from([False, False, True])})
     scalar = st.one_of(S['r_int'], S['r_str'], S['r_const'])
     pseudo = st.lists(st.tuples(st.sampled_from(['classvar', 'classvar', 'initvar']), st.sampled_from(['registry', 'count', 'cv', 'iv']),
                                 scalar, st.one_of(st.none(), scalar)).map(list), max_size=2, unique_by=lambda p: p[1])
     cls = st.fixed_dictionaries({
         'kind': st.just('class'), 'lib': st.sampled_from(['dc', 'attrs']), 'frozen': st.booleans(), 'slots': st.booleans(),
-        'fields': st.lists(field, max_size=5, unique_by=lambda f: f['name']), 'pseudo': pseudo,
+        'fields': st.lists(field, max_size=5, unique_by=lambda f: f['name']), 'pseudo': pseudo, 'kw_only': st.sampled_from([False, False, False, True]),
         'width': st.one_of(st.integers(1, 100), st.just(79)), 'indent': st.sampled_from([2, 4]), 'sort': st.booleans()})
     return st.one_of(call_alt, call_plain, cls, cls)
 
@@ -261,16 +275,27 @@ def oracle_call(case):
 # ---------------------------------------------------------------------------
 # (b) class family
 
-def _order_fields(fields):
-    return [f for f in fields if f['default'][0] == 'none'] + [f for f in fields if f['default'][0] != 'none']
+def _order_fields(fields, kw_class=False):
+    """declaration order of the generated class: positional fields without default must come first; keyword-only fields
+    (per field or class-wide) may stand anywhere, also without default after defaulted ones"""
+    if kw_class:
+        return list(fields)
+    return sorted(fields, key=lambda f: 0 if (f['default'][0] == 'none' and not f.get('kw')) else 1)
+
+
+def _self_ref(fields, f):
+    """the earlier field a takes_self default is computed from (None: constant default)"""
+    i = fields.index(f)
+    return fields[0]['name'] if i > 0 else None
 
 
 def make_class(case):
     """-> (cls, ordered field recipes); classes are cached by definition hash"""
     from .. import dyn
-    fields = _order_fields(case['fields'])
+    kw_class = bool(case.get('kw_only'))
+    fields = _order_fields(case['fields'], kw_class)
     pseudo = case.get('pseudo') or []      # dataclasses only: [kind 'classvar'|'initvar', name, default recipe, changed-to recipe or None]
-    key = json.dumps([case['lib'], case['frozen'], case['slots'], [[f['name'], f['default'], f['repr']] for f in fields], pseudo], sort_keys=True)
+    key = json.dumps([case['lib'], case['frozen'], case['slots'], [[f['name'], f['default'], f['repr'], bool(f.get('kw'))] for f in fields], pseudo, kw_class], sort_keys=True)
     name = 'K' + hashlib.blake2b(key.encode(), digest_size=6).hexdigest()
     cls = getattr(dyn, name, None)
     if cls is not None:
@@ -281,19 +306,20 @@ def make_class(case):
         specs = []
         for f in fields:
             d = f['default']
+            kw = {'kw_only': True} if f.get('kw') else {}
             if d[0] == 'none':
-                fld = dataclasses.field(repr=f['repr'])
+                fld = dataclasses.field(repr=f['repr'], **kw)
             elif d[0] == 'val':
                 dv = values.build(d[1])
                 built_defaults[f['name']] = dv
                 if isinstance(dv, (list, dict, set)):
-                    fld = dataclasses.field(default_factory=(lambda dv=dv: type(dv)(dv)), repr=f['repr'])
+                    fld = dataclasses.field(default_factory=(lambda dv=dv: type(dv)(dv)), repr=f['repr'], **kw)
                 else:
-                    fld = dataclasses.field(default=dv, repr=f['repr'])
+                    fld = dataclasses.field(default=dv, repr=f['repr'], **kw)
             elif d[0] == 'fac':
-                fld = dataclasses.field(default_factory=FACTORIES[d[1]], repr=f['repr'])
+                fld = dataclasses.field(default_factory=FACTORIES[d[1]], repr=f['repr'], **kw)
             else:   # facself does not exist for dataclasses: plain factory
-                fld = dataclasses.field(default_factory=FACTORIES['seven'], repr=f['repr'])
+                fld = dataclasses.field(default_factory=FACTORIES['seven'], repr=f['repr'], **kw)
             specs.append((f['name'], object, fld))
         import typing
         used = {f['name'] for f in fields}
@@ -308,7 +334,7 @@ def make_class(case):
                     changed.append((pname, values.build(chg)))
             else:
                 specs.append((pname, dataclasses.InitVar[object], dataclasses.field(default=values.build(dflt))))
-        cls = dataclasses.make_dataclass(name, specs, frozen=case['frozen'], slots=case['slots'])
+        cls = dataclasses.make_dataclass(name, specs, frozen=case['frozen'], slots=case['slots'], kw_only=kw_class)
         for pname, val in changed:
             setattr(cls, pname, val)      # e.g. an instance counter or registry bumped after the class was defined
     else:
@@ -316,20 +342,24 @@ def make_class(case):
         attrs = {}
         for f in fields:
             d = f['default']
+            kw = {'kw_only': True} if f.get('kw') else {}
             if d[0] == 'none':
-                attrs[f['name']] = attr.ib(repr=f['repr'])
+                attrs[f['name']] = attr.ib(repr=f['repr'], **kw)
             elif d[0] == 'val':
                 dv = values.build(d[1])
                 built_defaults[f['name']] = dv
                 if isinstance(dv, (list, dict, set)):
-                    attrs[f['name']] = attr.ib(factory=(lambda dv=dv: type(dv)(dv)), repr=f['repr'])
+                    attrs[f['name']] = attr.ib(factory=(lambda dv=dv: type(dv)(dv)), repr=f['repr'], **kw)
                 else:
-                    attrs[f['name']] = attr.ib(default=dv, repr=f['repr'])
+                    attrs[f['name']] = attr.ib(default=dv, repr=f['repr'], **kw)
             elif d[0] == 'fac':
-                attrs[f['name']] = attr.ib(factory=FACTORIES[d[1]], repr=f['repr'])
+                attrs[f['name']] = attr.ib(factory=FACTORIES[d[1]], repr=f['repr'], **kw)
             else:
-                attrs[f['name']] = attr.ib(default=attr.Factory(lambda self: 7, takes_self=True), repr=f['repr'])
-        cls = attr.make_class(name, attrs, frozen=case['frozen'], slots=case['slots'])
+                # computed from the instance: a pair holding the value of the first field (a constant when this is the first)
+                ref = _self_ref(fields, f)
+                fac = (lambda self, ref=ref: (getattr(self, ref), 1)) if ref else (lambda self: 7)
+                attrs[f['name']] = attr.ib(default=attr.Factory(fac, takes_self=True), repr=f['repr'], **kw)
+        cls = attr.make_class(name, attrs, frozen=case['frozen'], slots=case['slots'], kw_only=kw_class)
     cls.__module__ = 'ppv.dyn'
     cls.__qualname__ = name
     cls._ppv_defaults = built_defaults
@@ -337,8 +367,11 @@ def make_class(case):
     return cls, fields
 
 
-def default_value(f, lib, cls=None):
+def default_value(f, lib, cls=None, inst=None, fields=None):
     d = f['default']
+    if d[0] == 'facself' and lib == 'attrs' and inst is not None:
+        ref = _self_ref(fields, f)
+        return (getattr(inst, ref), 1) if ref else 7
     if d[0] == 'val':
         # the very object the class holds (identity matters: nan, and containers sharing their elements)
         dv = cls._ppv_defaults[f['name']] if cls is not None else values.build(d[1])
@@ -362,22 +395,31 @@ def oracle_class(case):
         if f['value'] == 'default':
             if not has_default:
                 kwargs[f['name']] = None
-                val, given = None, True
-            else:
-                val, given = default_value(f, case['lib'], cls), False
         else:
-            val, given = values.build(f['value']), True
-            kwargs[f['name']] = val
-        differs = (not has_default) or bool(default_value(f, case['lib'], cls) != val)
-        if f['repr'] and differs:
-            expected.append(f['name'])
-        elif differs:
-            hidden_off_default = True
+            kwargs[f['name']] = values.build(f['value'])
     try:
         inst = cls(**kwargs)
     except Exception:
         return core.skip('instance-rejected')
+    for f in fields:
+        has_default = f['default'][0] != 'none'
+        if f['name'] in kwargs:
+            val = kwargs[f['name']]
+        else:
+            val = default_value(f, case['lib'], cls, inst, fields)
+        differs = (not has_default) or bool(default_value(f, case['lib'], cls, inst, fields) != val)
+        if f['repr'] and differs:
+            expected.append(f['name'])
+        elif differs:
+            hidden_off_default = True
     cfg = {'width': case['width'], 'ribbon_width': case['width'], 'indent': case['indent'], 'sort_dict_keys': bool(case.get('sort'))}
+    if case['lib'] == 'attrs' and len(fields) > 1 and any(f['default'][0] == 'facself' for f in fields[1:]):
+        # another instance of the same class whose computed defaults differ is printed first
+        try:
+            sibling = cls(**dict(kwargs, **{fields[0]['name']: 'ppv-sibling'}))
+            values.pp(sibling, **cfg)
+        except Exception:
+            pass
     p = values.pp(inst, **cfg)
     labels = ['class', case['lib']]
     if p.exc is not None:
